@@ -42,6 +42,8 @@ func VerifNewSender(maxReceivers int, ttl time.Duration, transferFn func(ctx con
 		closeConn:   func() {},
 		transferFn:  transferFn,
 	}
+	// as RunSnapshotSender does: the state-change callback is the status logger (it takes the sender's lock itself)
+	v.S.onChange = v.S.logSnapshotState
 	return v
 }
 
